@@ -177,6 +177,84 @@ func run(t *testing.T, c *vk.C, sc scen, rng *rand.Rand) {
 	})
 }
 
+// runLRU: access times made the way consumers make them (Torrent.Request on pieces that are already
+// complete: a re-read), then one global eviction round that has to drop about half. Within a torrent no
+// piece accessed later may be dropped while one accessed earlier stays (all accesses lie within the hour,
+// where the documented order is plain least-recently-accessed first).
+func runLRU(t *testing.T, c *vk.C, rng *rand.Rand) {
+	swarm.Run(t, c, "C03", func(sw *swarm.Swarm) {
+		base := alloc.Bytes()
+		type tstate struct {
+			tr     *swarm.Tor
+			access []time.Time
+		}
+		var ts []*tstate
+		for k := 0; k < 1+rng.IntN(2); k++ {
+			g := fixture.RandGeo(rng, 1<<20, []uint32{32 << 10, 64 << 10, 128 << 10})
+			g.Name = fmt.Sprintf("lru%d", k)
+			tr := sw.AddTorrent(g, swarm.TorOpts{})
+			st := &tstate{tr: tr, access: make([]time.Time, g.NumPieces())}
+			for p := 0; p < g.NumPieces(); p++ {
+				// first access: demanded while missing, then it arrives
+				tr.T.Request(uint32(p), 1, true, false)
+				st.access[p] = time.Now()
+				tr.Prefill([]int{p})
+				tr.T.Have(uint32(p), true)
+				tr.T.Request(uint32(p), 1, false, false)
+				time.Sleep(time.Duration(1+rng.IntN(20)) * time.Second)
+			}
+			ts = append(ts, st)
+		}
+		sw.Cut()
+		// re-reads
+		for k := 0; k < 2+rng.IntN(8); k++ {
+			st := ts[rng.IntN(len(ts))]
+			p := rng.IntN(len(st.access))
+			if !st.tr.T.Pieces.Complete(uint32(p)) {
+				continue
+			}
+			st.tr.T.Request(uint32(p), 1, true, false)
+			st.tr.T.Request(uint32(p), 1, false, false)
+			st.access[p] = time.Now()
+			sw.Act("re-read piece %d of %s", p, st.tr.Geo.Name)
+			c.Count("rereads_of_complete_pieces", 1)
+			time.Sleep(time.Duration(1+rng.IntN(60)) * time.Second)
+		}
+		sw.Cut()
+		before := map[*tstate][]bool{}
+		for _, st := range ts {
+			b := make([]bool, len(st.access))
+			for p := range b {
+				b[p] = st.tr.T.Pieces.Complete(uint32(p))
+			}
+			before[st] = b
+		}
+		used := alloc.Bytes() - base
+		config.MemoryMark = base + used*int64(1+rng.IntN(3))/4
+		defer func() { config.MemoryMark = 1 << 40 }()
+		rc := tor.Expire()
+		sw.Cut()
+		time.Sleep(time.Second)
+		sw.Cut()
+		c.Count("lru_rounds", 1)
+		c.Count(fmt.Sprintf("expire_rc:%d", rc), 1)
+		for _, st := range ts {
+			for e := range st.access {
+				if !before[st][e] || st.tr.T.Pieces.Complete(uint32(e)) {
+					continue // not evicted
+				}
+				c.Count("lru_evictions_judged", 1)
+				for s := range st.access {
+					if s != e && before[st][s] && st.tr.T.Pieces.Complete(uint32(s)) && st.access[s].Before(st.access[e]) {
+						sw.Viol("C03", "order", "survivor-older-than-evicted through-request", fmt.Sprintf("%s: piece %d (last asked for %v ago) was evicted while piece %d (last asked for %v ago) stays", st.tr.Geo.Name, e, time.Since(st.access[e]), s, time.Since(st.access[s])))
+						return
+					}
+				}
+			}
+		}
+	})
+}
+
 func TestCheck(t *testing.T) {
 	r := vk.New("C03")
 	defer r.Done()
@@ -204,6 +282,18 @@ func TestCheck(t *testing.T) {
 			c.FP(vk.Hash64(sc.Torrents, sc.Mark, sc.Hook, sc.Victims), sc.Victims != "none")
 			c.End()
 		}
+	}
+	// least-recently-accessed order with access times made through Torrent.Request
+	for k := 0; k < r.Env.N(150, 5000); k++ {
+		i := idx
+		idx++
+		if !r.Mine(i) {
+			continue
+		}
+		c := r.Begin(i, map[string]any{"family": "lru-through-request", "k": k})
+		runLRU(t, c, r.Env.Rng(i))
+		c.FP(vk.Hash64("lru-through-request", k%50), true)
+		c.End()
 	}
 	// zero torrents at all
 	{
